@@ -18,6 +18,13 @@ func init() {
 }
 
 func runC10(c *core.Ctx) {
+	// "an error once the back-off budget is spent": the budget test and the accounting of the
+	// back-off object (config/retry/backoff.go is one of C10's anchors) are necessary conditions
+	c.Import(runC20, "C20", []string{"R1", "R2", "R6"}, "viaC20")
+	runC10own(c)
+}
+
+func runC10own(c *core.Ctx) {
 	p := c.P
 	a0 := rule(c, "C10.anchors")
 	next := a0.fn(pkgLocate, "sendReqState", "next")
